@@ -22,7 +22,7 @@ case " $(echo "$@" | tr a-z A-Z) " in *" C10 "*) FEATARGS="" ;; esac
 (cd $M/harness && CARGO_NET_OFFLINE=true cargo build --release $FEATARGS --target-dir $M/target >$M/build.log 2>&1) || { echo "$(basename $PATCH) BUILD-FAILED"; tail -20 $M/build.log; exit 2; }
 for id in "$@"; do
   ID=$(echo $id | tr a-z A-Z)
-  VERIF_OUT=$M/out VERIF_SEED=${VERIF_SEED:-1} $M/target/release/vcheck $ID quick >$M/out/$ID.log 2>&1
+  VERIF_OUT=$M/out VERIF_SEED=${VERIF_SEED:-1} timeout --signal=KILL ${MUTANT_TIMEOUT:-1800} $M/target/release/vcheck $ID quick >$M/out/$ID.log 2>&1
   rc=$?
   if [ $rc -eq 1 ]; then echo "$(basename $PATCH) $ID CAUGHT: $(grep -m1 '^failure key' $M/out/$ID.log | cut -c1-200)";
   elif [ $rc -eq 0 ]; then echo "$(basename $PATCH) $ID MISSED";
